@@ -185,7 +185,7 @@ def capp(f, *args):
 def run_coq_cases(tag, requires, case_type, check_fn, case_terms, shard=250, extra_defs="", timeout=900):
     """Evaluate [check_fn : case_type -> bool] on every case with vm_compute;
     returns the sorted list of indices where it is false."""
-    d = os.path.join(BUILD, "cases_" + tag)
+    d = os.path.join(BUILD, "cases_%s_%d" % (tag, os.getpid()))     # per process: concurrent runs of one check do not collide
     shutil.rmtree(d, ignore_errors=True)
     os.makedirs(d)
     files = []
@@ -215,6 +215,7 @@ def run_coq_cases(tag, requires, case_type, check_fn, case_terms, shard=250, ext
 
     with ThreadPoolExecutor(max_workers=JOBS) as ex:
         res = list(ex.map(one, files))
+    shutil.rmtree(d, ignore_errors=True)
     return sorted(i for r in res for i in r)
 
 
